@@ -1,5 +1,6 @@
 """C06 - garbage collection removes exactly the unused objects and never a used one."""
 
+import hashlib
 import os
 
 from hypothesis import strategies as st
@@ -65,11 +66,32 @@ def cases(draw):
         # many further unused file objects written straight into the store: listing / removal in pages
         # (fs.LIST_OBJECT_PAGE_SIZE = 1000) and batches must behave like the small case
         "bulk": draw(st.sampled_from([0] * 56 + [999, 1000, 1001, 2300])),
+        # one shard as full as a shard of a 500k-object store (the size estimate of dvc_objects lists the
+        # first shard and caps that listing at max(TRAVERSE_THRESHOLD_SIZE, ...)/256 = 1953 names when it is
+        # handed a non-empty id set): [n unused objects, shard]
+        "dense": draw(st.sampled_from([None] * 44 + [[1953, "00"], [1956, "00"], [2100, "00"], [2100, "ff"]])),
         # spelling of the store path handed to the object store (listing yields normalised paths)
         "path_form": draw(st.sampled_from(["plain", "plain", "plain", "trailing-sep", "dotdot", "dot", "double-sep"])),
         # name carried by the foreign-algorithm used ids
         "foreign": draw(st.sampled_from(["sha256", "md5-family", "md5-family"])),
     }
+
+
+_DENSE = {}
+
+
+def _dense(algo, shard, n):
+    """n distinct contents whose reference digest under `algo` starts with `shard` (found by search)."""
+    key = (algo, shard)
+    have = _DENSE.setdefault(key, [])
+    j = len(have) and have[-1][0] + 1
+    while len(have) < n:
+        data = b"dense object %d" % j  # (no CRLF: same id for both md5 flavours)
+        # (plain text without CR: the legacy flavour hashes it like md5)
+        if hashlib.new("md5" if algo.startswith("md5") else algo, data).hexdigest().startswith(shard):
+            have.append((j, data))
+        j += 1
+    return [d for _, d in have[:n]]
 
 
 def _stage(odb, path, algo):
@@ -164,6 +186,14 @@ def run_case(case, ctx):
                 data = b"bulk object %d" % j
                 oid = ref.ref_hash(data, algo)  # (no CRLF: same id for both md5 flavours)
                 p = odb.oid_to_path(oid)
+                gen.write_file(p, data)
+                os.chmod(p, 0o444)
+            odb._dirs = odb2._dirs = None
+
+        if case.get("dense"):
+            n_dense, shard = case["dense"]
+            for data in _dense(algo, shard, n_dense):
+                p = odb.oid_to_path(ref.ref_hash(data, algo))
                 gen.write_file(p, data)
                 os.chmod(p, 0o444)
             odb._dirs = odb2._dirs = None
@@ -298,6 +328,8 @@ def run_case(case, ctx):
             classes.append("legacy-unpacked-leftover")
         if case.get("bulk"):
             classes.append("bulk>=999-unused-objects")
+        if case.get("dense"):
+            classes.append(f"one-shard-holds->=1953-objects:{case['dense'][1]}")
         if case.get("path_form", "plain") != "plain":
             classes.append(f"store-path-spelled:{case['path_form']}")
         if case.get("two_handles") and case["trees"]:
